@@ -449,8 +449,7 @@ fn float_ok(e: &num::Expect, got: &Value) -> bool {
     }
 }
 
-fn case(rep: &mut Report, ti: usize, ci: usize) {
-    let tok = TOKENS[ti];
+fn case_tok(rep: &mut Report, tok: &str, ci: usize) {
     let cx = &CONTEXTS[ci];
     // a bracket token inside the bracket contexts nests; fine. A token containing
     // a newline-sensitive comment char is not in the corpus.
@@ -571,18 +570,56 @@ fn case(rep: &mut Report, ti: usize, ci: usize) {
     sample_if_room(rep, || json!({"input": input, "exercised_mask": mask, "groups": groups.len()}));
 }
 
-pub fn sets(_ctx: &Ctx) -> Vec<CaseSet> {
+/// Random tokens: identifiers of the R7RS grammar, and numeric literals with a random
+/// one- or two-character suffix/infix (near misses).
+fn random_token(rng: &mut crate::rng::Rng) -> String {
+    match rng.below(4) {
+        0 | 1 => {
+            let mut t = crate::gen::gen_ident(rng);
+            if rng.chance(1, 5) {
+                t.push(':');
+            }
+            if rng.chance(1, 8) {
+                t.insert(0, ':');
+            }
+            t
+        }
+        2 => {
+            // number followed by junk
+            let num = *rng.pick::<&str>(&["0", "1", "42", "-7", "+3", "1.5", "-0.25", "1e3", "2E-2", "6.02e23", "007", "18446744073709551616"]);
+            let junk = *rng.pick::<&str>(&["", "a", "+", "-", "/2", ".5", "e", "x", "_", ":", "..", "%", "!", "1a", "d0", "f", "L"]);
+            format!("{}{}", num, junk)
+        }
+        _ => {
+            let d = rng.below(1000).to_string();
+            let mid = *rng.pick::<&str>(&["", ".", "e", "E", "e+", "e-", "/", "x", "-", "+", ":", ".."]);
+            format!("{}{}{}", d, mid, rng.below(100))
+        }
+    }
+}
+
+pub fn sets(ctx: &Ctx) -> Vec<CaseSet> {
     let nt = TOKENS.len();
     let nc = CONTEXTS.len();
-    vec![CaseSet::new(
+    let n_random = ctx.size(250, 4_000);
+    vec![
+        CaseSet::new(
+            "random-tokens-x-contexts-x-all-option-sets",
+            n_random,
+            Box::new(move |rep, rng, _| {
+                let tok = random_token(rng);
+                if tok.is_empty() || tok.contains(|c: char| c.is_whitespace()) {
+                    return;
+                }
+                let ci = rng.below(nc);
+                case_tok(rep, &tok, ci);
+            }),
+        ),
+        CaseSet::new(
         "token-corpus-x-contexts-x-all-option-sets",
         (nt * nc) as u64,
         Box::new(move |rep, _rng, case| {
-            case_(rep, case as usize / nc, case as usize % nc);
+            case_tok(rep, TOKENS[case as usize / nc], case as usize % nc);
         }),
     )]
-}
-
-fn case_(rep: &mut Report, ti: usize, ci: usize) {
-    case(rep, ti, ci)
 }
